@@ -123,4 +123,57 @@ example : parseSum [(1, [97, 98])] 9 .error = .missing := by decide
 example : (download id (start none [.body 2, .body 1]
     ([.text [32, 97, 98, 10], .text [9, 97, 98]].map (parseSum [(1, [97, 98])] 9)))).2 = .done := by decide
 
+/-! ### Every prior state of the target file; the textual comparison of the digests -/
+
+/-- "A mismatch triggers exactly one retry" with an EXISTING target file that the pre-check did not accept (the
+first checksum answer `a0` is anything but the file's own checksum: wrong file, or checksum unavailable): the second
+data request is made if and only if the NEXT checksum answer - the first verification of the downloaded body - is
+available and differs from the body's hash.  (`retry_iff` is the same statement for an absent file, where no
+answer is consumed by a pre-check; an accepted existing file makes no data request at all:
+`valid_existing_not_refetched`.) -/
+theorem retry_iff_existing (hash : Nat → Nat) (p b : Nat) (ds : List DataResp) (a0 : SumResp) (ss : List SumResp)
+    (hinv : a0 ≠ .avail (hash p)) :
+    nData (download hash (start (some p) (.body b :: ds) (a0 :: ss))).1.log = 2 ↔
+      ∃ h, ss.head? = some (.avail h) ∧ hash b ≠ h :=
+  Lemmas.retry_iff_existing hash p b ds a0 ss hinv
+
+/-- "Exactly": for every prior state and all scripts whose first data answer is a body, a call that does not skip
+makes one data request or two (so "no second request" in `retry_iff` / `retry_iff_existing` means exactly one). -/
+theorem one_request_or_one_retry (hash : Nat → Nat) (prior : Option Nat) (b : Nat) (ds : List DataResp)
+    (ss : List SumResp) (hskip : (download hash (start prior (.body b :: ds) ss)).2 ≠ .skipped) :
+    nData (download hash (start prior (.body b :: ds) ss)).1.log = 1 ∨
+    nData (download hash (start prior (.body b :: ds) ss)).1.log = 2 :=
+  Lemmas.no_retry_one_request hash prior b ds ss hskip
+
+/-- Every documented form of the checksum file publishes the digest: `<md5>`, `<md5>\n`, `<md5>  <name>\n`
+(datasets.py:85), in any whitespace layout and in either letter case: when the lower-cased field `tok` is the rendering of
+hash value `h`, the answer is `.avail h`. -/
+theorem checksum_text_publishes (render : List (Nat × List Nat)) (other h : Nat) (lead tok rest : List Nat)
+    (hl : ∀ c ∈ lead, isWhite c = true) (hne : tok ≠ []) (ht : ∀ c ∈ tok, isWhite c = false)
+    (hr : rest = [] ∨ ∃ w r, rest = w :: r ∧ isWhite w = true)
+    (hd : render.find? (fun r => r.2 == tok.map lowerAscii) = some (h, tok.map lowerAscii)) :
+    parseSum render other (.text (lead ++ (tok ++ rest))) = .avail h :=
+  Lemmas.parse_publishes render other h lead tok rest hl hne ht hr hd
+
+/-- `valid_existing_not_refetched` without presupposing the equality of tokens: the server sends a TEXT; if its first
+field, lower-cased, is the rendering of the existing file's hash, the file is not downloaded again. -/
+theorem valid_existing_not_refetched_text (hash : Nat → Nat) (b : Nat) (ds : List DataResp) (ss : List SumResp)
+    (render : List (Nat × List Nat)) (other : Nat) (lead tok rest : List Nat)
+    (hl : ∀ c ∈ lead, isWhite c = true) (hne : tok ≠ []) (ht : ∀ c ∈ tok, isWhite c = false)
+    (hr : rest = [] ∨ ∃ w r, rest = w :: r ∧ isWhite w = true)
+    (hd : render.find? (fun r => r.2 == tok.map lowerAscii) = some (hash b, tok.map lowerAscii)) :
+    let r := download hash (start (some b) ds (parseSum render other (.text (lead ++ (tok ++ rest))) :: ss))
+    r.2 = .skipped ∧ nData r.1.log = 0 ∧ r.1.file = some b :=
+  Lemmas.valid_existing_not_refetched_text hash b ds ss render other lead tok rest hl hne ht hr hd
+
+/-! Non-vacuity: existing corrupt file 2, checksum 1 published: body 2 then body 1 = one retry, done; the three
+documented forms and the upper-case digest `AB` of a table that renders hash value 1 as `ab`. -/
+example : nData (download id (start (some 2) [.body 2, .body 1] [.avail 1, .avail 1, .avail 1])).1.log = 2 := by decide
+example : nData (download id (start (some 2) [.body 1] [.missing, .avail 1])).1.log = 1 := by decide
+example : parseSum [(1, [97, 98])] 9 (.text [97, 98]) = .avail 1 := by decide
+example : parseSum [(1, [97, 98])] 9 (.text [97, 98, 10]) = .avail 1 := by decide
+example : parseSum [(1, [97, 98])] 9 (.text [97, 98, 32, 32, 120, 46, 121, 10]) = .avail 1 := by decide
+example : parseSum [(1, [97, 98])] 9 (.text [65, 66, 32, 32, 120, 10]) = .avail 1 := by decide
+example : (download id (start (some 1) [] [parseSum [(1, [97, 98])] 9 (.text [65, 98, 13, 10])])).2 = .skipped := by decide
+
 end PhyVerif.C20
